@@ -151,3 +151,44 @@ MUTANTS += [
     dict(id="c15_label_is_index_not_rvfunc_for_later_nodes", props=["C15"], edits=[
         (PV, "            net.add_node(i, label=rvfunc(vert))\n", "            net.add_node(i, label=rvfunc(vert) if i < 5 else str(i))\n")]),
 ]
+
+SG = "edgegraph/structure/singleton.py"
+MUTANTS += [
+    # ---------------- C17 -------------------------------------------------
+    dict(id="c17_revert_fix_d17", props=["C17"], edits=[(SG, "            return (args, jwargs)\n", "            return hash((args, jwargs))\n")]),
+    dict(id="c17_revert_fix_d18_call", props=["C17"], edits=[
+        (SG, "            key = (cls, hashfunc(args, kwargs))\n", "            key = (type(cls), hashfunc(args, kwargs))\n"),
+        (SG, "[(type(obj), hashid)] = obj", "[(type(type(obj)), hashid)] = obj"),
+        (SG, "[(cls, hashid)]\n", "[(mcls, hashid)]\n"),
+        (SG, "    key = (cls, hashid)\n", "    key = (mcls, hashid)\n"),
+        (SG, "if owner is cls]", "if owner is type(cls)]"),
+        (SG, "if key[0] is cls]", "if key[0] is type(cls)]")]),
+    dict(id="c17_sort_keys_false", props=["C17"], edits=[(SG, "json.dumps(kwargs, sort_keys=True)", "json.dumps(kwargs, sort_keys=False)")]),
+    dict(id="c17_check_creates", props=["C17"], edits=[
+        (SG, "        return mcls._SemiSingleton__semisingleton_instance_map[key]  # type: ignore\n\n    return None",
+             "        return mcls._SemiSingleton__semisingleton_instance_map[key]  # type: ignore\n\n    return cls(*args, **kwargs) if kwargs else None")]),
+    dict(id="c17_clear_all_classes", props=["C17"], edits=[
+        (SG, "    for key in [key for key in instmap if key[0] is cls]:\n", "    for key in [key for key in instmap if issubclass(key[0], cls)]:\n")]),
+    dict(id="c17_kwargs_ignored_when_args", props=["C17"], edits=[
+        (SG, "            jwargs = json.dumps(kwargs, sort_keys=True)\n", "            jwargs = json.dumps(kwargs if not args else sorted(kwargs), sort_keys=True)\n")]),
+    dict(id="c17_add_mapping_on_wrong_class", props=["C17"], edits=[
+        (SG, "[(type(obj), hashid)] = obj", "[(next(c for c in reversed(type(obj).__mro__) if isinstance(c, cls)), hashid)] = obj")]),
+]
+
+MUTANTS += [
+    # ---------------- C18 -------------------------------------------------
+    dict(id="c18_targeted_clear_clears_all", props=["C18"], edits=[
+        (SG, "            del TrueSingleton._TrueSingleton__singleton_instances[cls]\n",
+             "            TrueSingleton._TrueSingleton__singleton_instances = {}\n")]),
+    dict(id="c18_key_by_name", props=["C18"], edits=[
+        (SG, "        if cls not in cls._TrueSingleton__singleton_instances:\n            cls._TrueSingleton__singleton_instances[cls] = super(\n                TrueSingleton, cls\n            ).__call__(*args, **kwargs)\n        return cls._TrueSingleton__singleton_instances[cls]",
+             "        key = cls.__mro__[-2]\n        if key not in cls._TrueSingleton__singleton_instances:\n            cls._TrueSingleton__singleton_instances[key] = super(\n                TrueSingleton, cls\n            ).__call__(*args, **kwargs)\n        return cls._TrueSingleton__singleton_instances[key]")]),
+    dict(id="c18_clear_absent_raises", props=["C18"], edits=[
+        (SG, "        if cls in TrueSingleton._TrueSingleton__singleton_instances:\n            del", "        if True:\n            del")]),
+    dict(id="c18_clear_all_keeps_subclasses", props=["C18"], edits=[
+        (SG, "        TrueSingleton._TrueSingleton__singleton_instances = {}\n",
+             "        TrueSingleton._TrueSingleton__singleton_instances = {k: v for k, v in TrueSingleton._TrueSingleton__singleton_instances.items() if len(k.__mro__) > 4}\n")]),
+    dict(id="c18_isinstance_lookup", props=["C18"], edits=[
+        (SG, "        if cls not in cls._TrueSingleton__singleton_instances:\n",
+             "        for k, v in cls._TrueSingleton__singleton_instances.items():\n            if issubclass(k, cls) and k is not cls and args:\n                return v\n        if cls not in cls._TrueSingleton__singleton_instances:\n")]),
+]
